@@ -7,7 +7,7 @@ use bytes::{Buf, Bytes, BytesMut};
 use serde_json::Value;
 use std::collections::VecDeque;
 use std::fmt::Write as _;
-use std::io::{BufRead, Cursor, IoSlice, Read, Write as _};
+use std::io::{BufRead, Cursor, IoSlice, Read};
 use std::panic::{catch_unwind, AssertUnwindSafe};
 
 #[macro_use]
@@ -392,12 +392,16 @@ fn run_buf_program(p: &Value, out: &mut String) {
             break;
         }
         let mut res = Res::new();
+        intent(out, i + 1, name, m, enc(n));
         let r = catch_unwind(AssertUnwindSafe(|| {
             let b: &mut dyn Node = &mut **root.as_mut().unwrap();
             match name {
-                "remaining" => res.n = enc(b.remaining()),
-                "has_remaining" => res.flag = b.has_remaining(),
-                "chunk" => res.v = b.chunk().to_vec(),
+                // `b.remaining()` on a `&mut dyn Node` receiver would resolve to the `&mut T` forwarding
+                // impl (autoref before deref); call the node's own method (RefNode / BoxNode cover
+                // the forwarders)
+                "remaining" => res.n = enc(Buf::remaining(&*b)),
+                "has_remaining" => res.flag = Buf::has_remaining(&*b),
+                "chunk" => res.v = Buf::chunk(&*b).to_vec(),
                 "advance" => b.advance(n),
                 "chunks_vectored" => {
                     static SENT: [u8; 3] = [250, 251, 252];
@@ -501,6 +505,7 @@ fn run_buf_program(p: &Value, out: &mut String) {
                 _ => panic!("unknown op {}", name),
             }
         }));
+        op_done();
         let outk = if r.is_ok() { "ok" } else { "panic" };
         let _ = write!(out, "{{\"i\":{},\"op\":\"{}\",\"path\":{},\"m\":\"{}\",\"n\":{},\"out\":\"{}\",\"res\":{{\"k\":\"{}\",\"n\":{},\"req\":{},\"avail\":{},\"flag\":{},\"v\":", i + 1, name, path_json(o), m, enc(n), outk, res.k, res.n, res.req, res.avail, res.flag);
         jbytes(out, &res.v);
@@ -521,10 +526,66 @@ fn run_buf_program(p: &Value, out: &mut String) {
     let _ = be16;
 }
 
+// ---------------------------------------------------------------- crash / hang isolation
+// Every event is written to the output file as soon as it is complete, and an `#intent` line
+// (the event with outcome "abort") is written before each operation.  A watchdog thread ends
+// the process when one operation runs for more than a few seconds (`#hang`).  The driver turns
+// the last intent into an `abort` / `hang` event and restarts behind the program.
+pub static OUTF: std::sync::Mutex<Option<std::fs::File>> = std::sync::Mutex::new(None);
+pub static OPSER: std::sync::atomic::AtomicU64 = std::sync::atomic::AtomicU64::new(0);
+
+pub fn flush_out(out: &mut String) {
+    if let Some(f) = OUTF.lock().unwrap().as_mut() {
+        use std::io::Write as _;
+        let _ = f.write_all(out.as_bytes());
+    }
+    out.clear();
+}
+
+pub fn intent(out: &mut String, i: usize, name: &str, m: &str, n: i64) {
+    flush_out(out);
+    let mut s = String::new();
+    let _ = write!(
+        s,
+        "#intent {{\"i\":{},\"op\":\"{}\",\"path\":[],\"m\":\"{}\",\"n\":{},\"val\":0,\"out\":\"abort\",\"res\":{{\"k\":\"none\",\"n\":0,\"req\":0,\"avail\":0,\"flag\":true,\"v\":[],\"vv\":[]}},\"d\":[],\"v16\":[],\"src\":{{\"k\":\"leaf\",\"ty\":\"slice\",\"limit\":0,\"d\":[]}},\"tree\":{{\"k\":\"gone\",\"limit\":0}}}}\n",
+        i, name, m, n
+    );
+    flush_out(&mut s);
+    OPSER.fetch_add(1, std::sync::atomic::Ordering::SeqCst);
+}
+
+pub fn op_done() {
+    OPSER.fetch_add(1, std::sync::atomic::Ordering::SeqCst);
+}
+
+fn watchdog() {
+    std::thread::spawn(|| {
+        let mut last = 0u64;
+        let mut since = std::time::Instant::now();
+        loop {
+            std::thread::sleep(std::time::Duration::from_millis(100));
+            let s = OPSER.load(std::sync::atomic::Ordering::SeqCst);
+            if s != last {
+                last = s;
+                since = std::time::Instant::now();
+            } else if s % 2 == 1 && since.elapsed() > std::time::Duration::from_secs(4) {
+                if let Ok(mut g) = OUTF.try_lock() {
+                    if let Some(f) = g.as_mut() {
+                        use std::io::Write as _;
+                        let _ = f.write_all(b"#hang\n");
+                    }
+                }
+                std::process::exit(124);
+            }
+        }
+    });
+}
+
 fn main() {
     let args: Vec<String> = std::env::args().collect();
     let mut programs = String::new();
     let mut outp = String::from("/dev/stdout");
+    let mut start = 0usize;
     let mut i = 1;
     while i < args.len() {
         match args[i].as_str() {
@@ -536,6 +597,10 @@ fn main() {
                 outp = args[i + 1].clone();
                 i += 1;
             }
+            "--start" => {
+                start = args[i + 1].parse().expect("--start N");
+                i += 1;
+            }
             _ => {
                 eprintln!("unknown arg {}", args[i]);
                 std::process::exit(2);
@@ -545,10 +610,16 @@ fn main() {
     }
     std::panic::set_hook(Box::new(|_| {}));
     let text = std::fs::read_to_string(&programs).expect("read programs");
-    let mut f = std::io::BufWriter::new(std::fs::File::create(&outp).expect("create out"));
+    let f = if start > 0 {
+        std::fs::OpenOptions::new().append(true).open(&outp).expect("open out")
+    } else {
+        std::fs::File::create(&outp).expect("create out")
+    };
+    *OUTF.lock().unwrap() = Some(f);
+    watchdog();
     let mut out = String::new();
-    for line in text.lines() {
-        if line.trim().is_empty() {
+    for (pi, line) in text.lines().filter(|l| !l.trim().is_empty()).enumerate() {
+        if pi < start {
             continue;
         }
         let p: Value = serde_json::from_str(line).expect("program json");
@@ -558,7 +629,6 @@ fn main() {
         } else {
             run_buf_program(&p, &mut out);
         }
-        f.write_all(out.as_bytes()).unwrap();
+        flush_out(&mut out);
     }
-    f.flush().unwrap();
 }
